@@ -116,6 +116,19 @@ def resolve_type(tr: P.TypeRef, scope: Scope):
     return t
 
 
+def _all_uninitialised(node):
+    """initial value written as an explicit all-'U' literal: the same as no initial value in the two-valued model"""
+    while isinstance(node, P.Paren):
+        node = node.expr
+    if isinstance(node, P.Qualified):
+        return _all_uninitialised(node.expr)
+    if isinstance(node, P.StrLit):
+        return len(node.s) > 0 and set(node.s) == {"U"}
+    if isinstance(node, P.CharLit):
+        return node.ch == "U"
+    return False
+
+
 class ProcInfo:
     def __init__(self, label, node, scope, vars_, design):
         self.label = label
@@ -176,7 +189,7 @@ class Design:
                 for d in st.decls:
                     if isinstance(d, P.ObjDecl) and d.kind == "variable":
                         t = resolve_type(d.type, psc)
-                        init = self._static_value(d.init, t, psc) if d.init is not None else None
+                        init = self._static_value(d.init, t, psc) if d.init is not None and not _all_uninitialised(d.init) else None
                         psc.declare(d.name, ("variable", d.name.lower(), t), d)
                         vars_[d.name.lower()] = (t, init)
                     elif isinstance(d, (P.AttrSpec, P.AttrDecl, P.ArrayDecl, P.EnumDecl)):
@@ -221,7 +234,7 @@ class Design:
     def _declare(self, d, scope, arch_level):
         if isinstance(d, P.ObjDecl):
             t = resolve_type(d.type, scope)
-            init = self._static_value(d.init, t, scope) if d.init is not None else None
+            init = self._static_value(d.init, t, scope) if d.init is not None and not (_all_uninitialised(d.init) and d.kind != "constant") else None
             if d.kind == "signal":
                 if not arch_level:
                     raise Illegal("syntax", "signal declared in process", d.line)
@@ -720,6 +733,22 @@ def _same_type(a, b):
 
 class _Exec:
     """symbolic execution of one process activation"""
+
+    def meta_literal(self, text, line):
+        """payload of a vector literal containing metavalues: known bits as given, every metavalue an arbitrary fixed bit"""
+        sim = self.sim
+        key = f"lit!{line}!{text}"
+        cache = sim.__dict__.setdefault("_meta_lits", {})
+        if key not in cache:
+            n = len(text)
+            known = int("".join(c if c in "01" else ("1" if c == "H" else "0") for c in text), 2)
+            mask = int("".join("0" if c in "01LH" else "1" for c in text), 2)
+            if sim.uninit == "fresh" or sim.arbitrary_state:
+                free = sim._fresh(TVec("slv", n - 1, 0), key).x
+                cache[key] = D.v_or(known, D.v_and(free, mask, n), n)
+            else:
+                cache[key] = known
+        return cache[key]
 
     def __init__(self, sim: Sim, fp: FlatProc, static: bool):
         self.sim, self.fp, self.static = sim, fp, static
